@@ -367,6 +367,21 @@ func C07Corpus() []*C7Prog {
 		{Name: "strings-fast", Src: "(if (= s0 \"s\") (q b1 b2) (h b1 b2 b3))", Vars: c7vars("s0", "b1", "b2", "b3"), Opt: ev(allOn, 1),
 			Calls: []C7Call{evalc("Eval#s", "s", true, false, true), evalc("Eval#t", "t", true, false, true), tryc("TryEval#b2-unavailable", []bool{true, true, false, true}, "t", true, true, true), insp[1]}},
 	}
+	// `in` over list literals on the large-list path (>= 100 elements, int and
+	// string): the compiled list is shared by every evaluation of the program
+	{
+		var bi, bs []string
+		for i := 0; i < 130; i++ {
+			bi = append(bi, fmt.Sprint(1+2*i))
+			bs = append(bs, fmt.Sprintf("\"w%d\"", 1+2*i))
+		}
+		for oi, o := range []drive.Opt{off, allOn} {
+			ps = append(ps, &C7Prog{Name: fmt.Sprintf("in-large-literals-%d", oi), Src: "(if (in n0 (" + strings.Join(bi, " ") + ")) (in s1 (" + strings.Join(bs, " ") + ")) (not (in s1 (" + strings.Join(bs, " ") + "))))",
+				Vars: []term.VarDecl{{Name: "n0", Ty: term.TI}, {Name: "s1", Ty: term.TS}}, Opt: o,
+				Calls: []C7Call{evalc("Eval#first-member", int64(1), "w1"), evalc("Eval#last-member", int64(259), "w259"), evalc("Eval#non-member", int64(2), "w2"),
+					evalc("Eval#mixed", int64(131), "zz"), tryc("TryEval#all", nil, int64(260), "w259"), tryc("TryEval#s1-unavailable", []bool{true, false}, int64(259), "w1"), insp[0]}})
+		}
+	}
 	// configured constants whose Go types are not the engine's own (plain int,
 	// int8, []int, a Duration): whatever the engine makes of them, it makes the
 	// same of them in every call, and never by rewriting the compiled program
